@@ -45,9 +45,9 @@ theorem setOption_safeMode_accepts (v : PyVal) (n : Int) (s : Session)
   simp only [this]
   rfl
 
-/-- `htmlReplacement` is stored as given (`str(value)`). -/
+/-- `htmlReplacement` is stored as `str(value)` with the reserved code points blanked. -/
 theorem setOption_htmlReplacement (v : PyVal) (s : Session) :
-    (setOption "htmlReplacement".toList v).run s = .ok ((), { s with htmlReplacement := v.toStr }) := by
+    (setOption "htmlReplacement".toList v).run s = .ok ((), { s with htmlReplacement := blankReserved v.toStr }) := by
   unfold setOption
   simp only [name_hr_sm, name_hr_rs, name_hr_hr]
   rfl
@@ -173,7 +173,7 @@ def setOptionPure (name : Str) (value : PyVal) (s : Session) : Session :=
     if value == .none || value.eqFalse || value == .str "false".toList then s
     else if value.eqTrue || value == .str "true".toList then initState s
     else logMsg ("illegal reset API option value: ".toList ++ value.toStr) s
-  else if name == "htmlReplacement".toList then { s with htmlReplacement := value.toStr }
+  else if name == "htmlReplacement".toList then { s with htmlReplacement := blankReserved value.toStr }
   else logMsg ("illegal API option name: ".toList ++ name) s
 
 theorem setOption_run (name : Str) (value : PyVal) (s : Session) :
